@@ -130,4 +130,47 @@ func init() {
 		jn.wait()
 		vt.WaitIdle()
 	})
+
+	// staleloop: a directed schedule. The event loop is held right before it reserves a slot
+	// (it has evaluated its guard); meanwhile the worker is restarted and its successor fills the
+	// limit; then the old loop is released. It must not dispatch on the strength of a guard it
+	// evaluated before the Restart (C02), nor leave the successor asleep next to a free slot (C03).
+	registerFamily("staleloop", []string{"C01", "C02", "C03"}, func(e *env) {
+		r := vt.Rand()
+		e.kind = e.p("kind", r.Intn(3))
+		e.conc = e.p("conc", 1+r.Intn(2))
+		e.mkWorker()
+		q := e.bind(pick(r, qFifo, qPrio))
+		held, on := -1, true
+		vt.Hold(func(tid, site int, kind string) bool {
+			if !on || kind != "add" || siteName(site) != "worker.processNextJob/w.curProcessing.Add" {
+				return false
+			}
+			if held < 0 {
+				held = tid
+			}
+			return tid == held
+		})
+		e.add(q, 0, oOK, true, "")
+		vt.WaitIdle() // the first event loop now sits before its reservation
+		switch e.p("between", r.Intn(3)) {
+		case 0:
+			e.lifecycle("Restart", 0)
+		case 1:
+			e.lifecycle("Stop", 0)
+			e.lifecycle("Restart", 0)
+		case 2:
+			e.lifecycle("PauseAndWait", 0)
+			e.lifecycle("Resume", 0)
+		}
+		for i := 0; i < e.conc+1; i++ {
+			e.add(q, 0, oOK, true, "")
+		}
+		vt.WaitIdle()
+		on = false // release the old loop
+		vt.WaitIdle()
+		e.sampleCounts()
+		e.drain()
+	})
 }
+
